@@ -272,6 +272,11 @@ def removers_rule(ctx, report, rule="REMOVE"):
                         arr = [const_key(v) for k2, v in sorted(c.a[1].items(), key=lambda kv: int(kv[0]))]
                 got = arr
                 extra_ok = ik.k == "call" and ik.a[0].name == "empty" and "iter" in ik.a[0].fn
+                # the key list reaches remove_insert whole: only adaptors that keep every element (order is irrelevant to a removal)
+                adaptors = [c.a[0].name for c in rk.walk() if c.k == "call" and (c.a[0].trait or "").endswith("Iterator") and c.a[0].name not in ("rev", "copied", "cloned", "by_ref", "into_iter")]
+                if adaptors:
+                    extra_ok = False
+                    why = "the key list goes through %s, which may drop keys" % adaptors
                 s = strip(an.operand_expr(t.args[3], b.idx, len(b.stmts)))
                 extra_ok = extra_ok and s.k == "param" and s.a[0] == 2
                 if not extra_ok:
@@ -324,6 +329,46 @@ def removers_rule(ctx, report, rule="REMOVE"):
 
 def readers_rule(ctx, report, rule="READ"):
     cfg = ctx.config
+    # iter(): every pair of the map, in map order, value as stored
+    f = ctx.facts.fn("Enr::<K>::iter")
+    if f is not None:
+        an = ctx.an(f)
+        rets = ret_exprs(an)
+        ok = False
+        why = "not a single return"
+        if len(rets) == 1:
+            es = strip(rets[0][2])
+            why = "returns %s" % short(es, 120)
+            if es.k == "call" and es.a[0].name == "map" and len(es.a[1]) == 2:
+                src = strip(es.a[1][0])
+                ok = src.k == "call" and src.a[0].name == "iter" and "BTreeMap" in (src.a[0].fn or "") + (src.a[0].full or "") and src.a[1] and P.match(src.a[1][0], P.field(P.param(1), "content")) is not None
+            elif es.k == "call" and es.a[0].name == "iter" and "BTreeMap" in (es.a[0].fn or "") + (es.a[0].full or ""):
+                ok = P.match(es.a[1][0], P.field(P.param(1), "content")) is not None
+        report.check(rule, "iter", ok, "iter() walks content.iter() itself (every pair, map order), mapping only the value's representation",
+                     "iter() does not yield exactly the pairs of the map: %s" % why, fn=f.path, sp=f.span, config=cfg)
+    # id(): Some(lossy text of the id entry's payload) exactly when get("id") is Some
+    f = ctx.facts.fn("Enr::<K>::id")
+    if f is not None:
+        an = ctx.an(f)
+        somes, bad = 0, []
+        for bb, idx, e, node in ret_exprs(an):
+            for a in (strip(e).a[0] if strip(e).k == "phi" else [strip(e)]):
+                a = strip(a)
+                if a.k == "agg" and a.a[0].endswith("Option::Some"):
+                    if any(x.k == "call" and x.a[0].target() in ("Enr::<K>::get", "Enr::<K>::get_decodable", "Enr::<K>::get_raw_rlp") and len(x.a[1]) == 2 and const_key(x.a[1][1]) == b"id" for x in a.walk()):
+                        somes += 1
+                    else:
+                        bad.append("Some(..) not derived from get(\"id\")")
+                elif a.k == "agg" and a.a[0].endswith("Option::None"):
+                    continue
+                elif a.k == "call" and a.a[0].name in ("map", "and_then") and a.a[1] and any(x.k == "call" and x.a[0].target() in ("Enr::<K>::get", "Enr::<K>::get_decodable", "Enr::<K>::get_raw_rlp") and len(x.a[1]) == 2 and const_key(x.a[1][1]) == b"id" for x in strip(a.a[1][0]).walk()):
+                    somes += 1
+                elif a.k == "call" and a.a[0].name == "from_residual":
+                    continue
+                else:
+                    bad.append("returns %s" % short(a, 80))
+        report.check(rule, "id", somes >= 1 and not bad, "id() is Some(text of the id entry) exactly when the entry is present",
+                     "id() does not report the stored identity scheme: %s" % (bad or "no Some path"), fn=f.path, sp=f.span, config=cfg)
     # generic getters
     f = fn_or_violate(ctx, report, rule, "Enr::<K>::get_raw_rlp")
     if f is not None:
